@@ -547,6 +547,13 @@ func runViewsSuite(seed uint64, n int, out *Out, stats *Stats) {
 		}
 		v.Log.Take()
 		now2 := w.now + int64(r.U64n(uint64(set.Interval)))
+		if r.Chance(1, 4) && len(v.AllBlocks()) >= 3 {
+			// the access node's clock is a little behind its validator's (or the validator produced a block
+			// while the request was on its way): the height the access node asks for is the one below the
+			// validator's tip and the answered page holds two blocks - "the block at the current height" is the first
+			now2 = w.now - 1 - int64(r.U64n(uint64(set.Interval)-1))
+			stats.Count("progress/validator one block ahead of the access node's clock")
+		}
 		watch2 := &ScriptWatch{fallback: func() int64 { return now2 }}
 		sender := backedSender(v)
 		inject := r.Intn(7) // 0..3 none; 4 utxos, 5 blocks, 6 pool fail; plus first-ts below
